@@ -297,7 +297,7 @@ fn run_threads(c: &mut dyn Choices, ctx: &Ctx) -> Outcome {
   let scripts: Vec<Vec<TOp>> = (0..n_threads)
     .map(|_| {
       (0..(1 + c.pick(4)))
-        .map(|_| match c.pick(14) {
+        .map(|_| match c.pick(15) {
           0..=4 => TOp::Next(0),
           5 => TOp::Complete(0),
           6 => TOp::Error(0),
@@ -305,7 +305,9 @@ fn run_threads(c: &mut dyn Choices, ctx: &Ctx) -> Outcome {
           8 => TOp::SubscribeNesting,
           9 | 10 => TOp::Unsubscribe(c.pick(3)),
           11 => TOp::Retain,
-          _ => TOp::Size,
+          12 | 13 => TOp::Size,
+          // (added as the last alternative: recorded tapes keep their meaning)
+          _ => TOp::UnsubSubject,
         })
         .collect()
     })
@@ -323,7 +325,8 @@ fn run_threads(c: &mut dyn Choices, ctx: &Ctx) -> Outcome {
       // subscription intervals per probe
       let sub_of = |p: usize| o.calls.iter().find(|c| c.what == "Subscribe" && c.probe == Some(p)).map(|c| (c.begin, c.end));
       let unsub_of = |p: usize| o.calls.iter().find(|c| c.what.starts_with("Unsubscribe") && c.probe == Some(p)).map(|c| (c.begin, c.end));
-      let term = o.calls.iter().filter(|c| c.what == "Complete(0)" || c.what == "Error(0)").map(|c| (c.begin, c.end)).min();
+      // the first event that closes the subject: a terminal, or unsubscribe() on the subject itself
+      let term = o.calls.iter().filter(|c| c.what == "Complete(0)" || c.what == "Error(0)" || c.what == "UnsubSubject").map(|c| (c.begin, c.end)).min();
       let mut probes: Vec<usize> = o.pre_probes.clone();
       probes.extend(o.calls.iter().filter_map(|c| if c.what == "Subscribe" { c.probe } else { None }));
       for p in probes {
